@@ -475,6 +475,14 @@ def _alts(b, t, depth=0):
         for _, v in outcome(b).sym.defs_of_var(t[2]):
             out += _alts(b, v, depth + 1)
         return out
+    # `r.unwrap_or(d)` is the payload of r or d; `r.unwrap_or_default()` the payload or the empty value (std contract)
+    if t[0] == "call" and depth < 3 and (t[3] or {}).get("krate") in ("core", "std", "alloc") and \
+            (t[3] or {}).get("name") in ("unwrap_or", "unwrap_or_default") and \
+            re.search(r"(result::Result|option::Option)::<.*>::unwrap_or(_default)?$", (t[3] or {}).get("res") or ""):
+        vn = "Ok" if "result::Result" in t[3]["res"] else "Some"
+        payload = ("field", ("variant", strip_deep(t[2][0]), vn), "0", None)
+        other = strip_deep(t[2][1]) if t[3]["name"] == "unwrap_or" and len(t[2]) == 2 else ("agg", "array", "", ())
+        return _alts(b, payload, depth + 1) + _alts(b, other, depth + 1)
     return [t]
 
 
@@ -516,12 +524,29 @@ def _const_is(t, n):
     return t[0] == "const" and not isinstance(t[1], bool) and t[1] == n
 
 
+def _split_first_call(f, t):
+    """t is `list.split_first()` on the delta list (std: None iff the list is empty, else (first, rest))."""
+    t = _unmut(t)
+    return t[0] == "call" and (t[3] or {}).get("name") == "split_first" and len(t[2]) == 1 and \
+        (t[3] or {}).get("krate") in ("core", "std", "alloc") and _is_delta_list(f, t[2][0])
+
+
+def _split_first_of(f, t):
+    """t is the `Some` payload of `list.split_first()`."""
+    t = _unmut(t)
+    return t[0] == "field" and str(t[2]) == "0" and _unmut(t[1])[0] == "variant" and _unmut(t[1])[2] == "Some" and \
+        _split_first_call(f, _unmut(t[1])[1])
+
+
 def _receiver_shape(f, t):
     """How the iterated value relates to the delta list: 'each' (its elements), 'windows' (adjacent pairs as 2-slices),
     'zip' (adjacent pairs as tuples), 'tail' (all but the first element); None if it is something else."""
     t = _unmut(t)
     if _is_delta_list(f, t):
         return "each"
+    # `let Some((first, rest)) = list.split_first()`: `rest` is the list without its first element
+    if t[0] == "field" and str(t[2]) == "1" and _split_first_of(f, t[1]):
+        return "tail"
     if t[0] != "call":
         return None
     name = (t[3] or {}).get("name")
@@ -809,6 +834,11 @@ def _forall_deltas(f, b, lit_for, need_update=None, about_list=True):
             if at and isinstance(at[0], tuple) and at[0][2] == "is_empty" and len(at[1]) == 1 and _is_delta_list(f, at[1][0]):
                 fe, te = switch_bool_edges(bd, bb)
                 out.append((bb, te if at[3] else fe))
+        if about_list and t["t"] == "switch" and t.get("dty") != "bool":
+            # `list.split_first()` is None: the list is empty, there is nothing to test
+            d = _unmut(s.operand(t["discr"]))
+            if d[0] == "discr" and _split_first_call(f, d[1]):
+                out += [(bb, tb) for v, tb in bd.switch_edges(bb) if v != 1]
         e = comb_edges(bd, s, bb)
         if e:
             out += e
